@@ -109,6 +109,7 @@ fn real_main() {
                 "dangling" => families::Family::Dangling,
                 "shared_header" => families::Family::SharedHeader,
                 "jbig_cycle" => families::Family::JbigCycle,
+                "long_parents" => families::Family::LongParents,
                 _ => families::Family::Rich,
             };
             let mut pool = docs::Pool::new(&repo, env_seed());
